@@ -1,5 +1,6 @@
 #!/bin/sh
 # run_check.sh <ID> <quick|thorough>: rebuild the explorer against /repo's current working tree, run one check.
+# run_check.sh replay <file>        : rebuild, then re-execute the case recorded in a replay file.
 # (VERIF_REPO=<dir> points the whole machinery at another checkout — used only for experiments with
 #  property-breaking changes in scratch worktrees; the registered commands always use /repo.)
 set -u
@@ -24,4 +25,8 @@ if ! (cd "$ROOT/mc" && go build -o "$BIN/spdxmc" ./cmd/spdxmc) >"$BIN/build.log"
   cat "$BIN/build.log" >&2
   exit 2
 fi
-"$BIN/spdxmc" check "$1" "${2:-quick}"
+if [ "$1" = replay ]; then
+  "$BIN/spdxmc" replay "$2"
+else
+  "$BIN/spdxmc" check "$1" "${2:-quick}"
+fi
